@@ -287,6 +287,8 @@ def _a4():
                 yield ('A4', c, lit, 'add', '', 0)
             for c, lit in itertools.product(['F32E', 'F32P', 'F64Z'], ['1.5', 'r0.1', '3']):
                 yield ('A4', c, lit, 'mul', 'add', 1)
+            for c in ('F32Z', 'F32E', 'F64N'):          # an inexact inner result feeds the outer operation
+                yield ('A4', c, '1.5', 'add', 'mul', 1)
 
     def build(c, lit, o1, o2, ai):
         args = SS[ai]
@@ -418,7 +420,7 @@ def _b3():
         body = [f'with {c}:',
                 f'    a = {ex("div", env, W, "u", "v")} if (u {c1} v and not (v {c2} 1.5)) else {ex("mul", env, W, "u", "v")}',
                 f'    p = u {c1} v or not (v {c2} u)',
-                f'return a, p, not p, v {c2} 1.5']
+                f'return a, p, not p, u {c1} v {c2} 1.5']
         return Program(('B3', c, c1, c2), 'B', f'B3:ifexp-bool:w{W}', fn('f', [('u', 's64'), ('v', 's64')], body),
                        args, 'F64E')
     return gen, build
@@ -585,7 +587,7 @@ def _c5():
 
 @family('D1')
 def _d1():
-    shapes = ['nest', 'destructure', 'ifexp', 'zip', 'listof']
+    shapes = ['nest', 'destructure', 'ifexp', 'zip', 'listof', 'sum', 'enumerate']
 
     def gen(full):
         if full:
@@ -598,6 +600,18 @@ def _d1():
 
     def build(sh, c, op):
         W = width(c)
+        if sh in ('sum', 'enumerate'):
+            lk = 'l32' if W == 32 else 'l64'
+            env = Env(v=64, x=W, acc=W)
+            if sh == 'sum':
+                body = [f'with {c}:', f'    return sum(us), sum([{ex(op, env, W, "x", "v")} for x in us])']
+            else:
+                body = [f'with {c}:', f'    acc = {env.o("v", W)}', '    k = 0',
+                        '    for i, x in enumerate(us):',
+                        f'        acc = {ex(op, env, W, "acc", "x")}', '        k = i',
+                        '    return acc, k']
+            return Program(('D1', sh, c, op), 'D', f'D1:{sh}:w{W}', fn('f', [('us', lk), ('v', 's64')], body),
+                           [lk, 's64'], 'F64E')
         if sh in ('zip', 'listof'):
             args = ['l64', 's64']
             env = Env(v=64, x=64, y=64)
@@ -885,6 +899,13 @@ def _g3():
         'real-in-ctx': (['s32', 's32'], ['with {C32}:', '    a = u + v', '    with REAL:', '        b = a * u',
                                          'with {C}:', '    return b - a']),
         'real-round': (['s32', 's32'], ['with REAL:', '    a = u * v', 'with {C32}:', '    return round(a)']),
+        # exact arithmetic on values of a small integer format: the result needs the next wider machine integer
+        'int8-real': (['s64', 's64'], ['if abs(u) < 30:', '    with SINT8:', '        k = round(u) * 50', '    with REAL:',
+                                       '        m = k + k + k', '        n = k * k', '    with {C}:',
+                                       '        return m + v, n', 'return v, 0']),
+        'int16-real': (['s64', 's64'], ['if abs(u) < 30:', '    with SINT16:', '        k = round(u) * 15000',
+                                        '    with REAL:', '        m = k + k + k', '        n = k * k - k',
+                                        '    with {C}:', '        return m + v, n', 'return v, 0']),
     }
 
     def gen(full):
